@@ -17,7 +17,8 @@ def issued : List Ev → List Nat
   | .requestCut r :: es => r :: issued es
   | _ :: es => issued es
 
-/-- FRESH TOKEN: the token source is asked once per connect attempt; an attempt starts when an outage begins and after every failed attempt -/
+/-- FRESH TOKEN: the token source is asked once per connect attempt; an attempt starts when an outage begins and whenever a
+    back-off elapses while the connection is still reconnecting -/
 theorem C05.token_per_attempt (evs : List Ev) :
     (run {} evs).tokens = (run {} evs).dials ∧ (run {} evs).dials = 1 + attempts {} evs := by
   have h := (inv_reach evs).i1.tok
@@ -146,14 +147,27 @@ theorem C05.requests_not_lost (evs : List Ev) :
   rw [← issued_eq_flatMap] at hp
   exact ⟨by simpa using hp, h.failed, h.pend⟩
 
-/-- … and a recovery sends everything that waited, in order, on the new transport -/
-theorem C05.recovery_flushes_pending (s : St) (h : s.status = .reconnecting) :
+-- STATEMENT CHANGED: the original statement was
+--   theorem C05.recovery_flushes_pending (s : St) (h : s.status = .reconnecting) :
+--       (step s (.dial true)).sent = s.sent ++ s.pending.map (fun r => (s.inc + 1, r)) ∧ (step s (.dial true)).pending = [] ∧
+--       (step s (.dial true)).status = .connected
+-- It is false in the model with attempts: a dial outcome only counts while an attempt is in progress.  Counterexample:
+-- s = run {} [.kill, .request 7, .dial false] is reconnecting with attempting = false and pending = [7]; `.dial true` leaves it
+-- unchanged (pending = [7], status = reconnecting) — checked by the `example` below.  The true variant asks for an attempt in
+-- progress.
+/-- … and a recovery (the attempt in progress succeeds) sends everything that waited, in order, on the new transport -/
+theorem C05.recovery_flushes_pending (s : St) (h : s.status = .reconnecting) (ha : s.attempting = true) :
     (step s (.dial true)).sent = s.sent ++ s.pending.map (fun r => (s.inc + 1, r)) ∧ (step s (.dial true)).pending = [] ∧
     (step s (.dial true)).status = .connected := by
-  simp [step, h]
+  simp [step, h, ha]
+
+-- the counterexample to the original statement of C05.recovery_flushes_pending
+example : let s := run {} [.kill, .request 7, .dial false]
+    s.status = .reconnecting ∧ s.attempting = false ∧ (step s (.dial true)).pending = [7] ∧
+    (step s (.dial true)).status = .reconnecting ∧ (step s (.dial true)).sent = [] := by decide
 
 -- non-vacuity: a history with a failed redial, a recovery, one resume answered and one refused
-example : let s := run {} [.openStream .up, .openStream .down, .kill, .request 7, .dial false, .dial true, .resume 1 .ok, .resume 2 .refused]
+example : let s := run {} [.openStream .up, .openStream .down, .kill, .request 7, .dial false, .backoff, .dial true, .resume 1 .ok, .resume 2 .refused]
     s.status = .connected ∧ s.tokens = 3 ∧ s.disc = 1 ∧ s.reconn = 1 ∧ s.sent = [(2, 7)] ∧
     s.streams.map (fun x => (x.sid, x.st, x.resumedEv, x.closedEv)) = [(1, .opened, 1, 0), (2, .closedErr, 0, 1)] := by decide
 
